@@ -140,3 +140,35 @@ def c19(ctx, replay):
     rep_file = ctx.path("stats_report.json")
     _, rep, _ = ctx.vh(["replay-stats", "-cases", cases_file, "-out", rep_file], expect_report=rep_file)
     ctx.add_report(rep, "stats", traces=rep.get("cases", 0))
+
+
+# ------------------------------------------------------------------------------------------------ C20
+@pipeline("C20")
+def c20(ctx, replay):
+    thorough = ctx.tier == "thorough"
+    ctx.rule = ("behaviours of MC_Experiment: every script over {ok, solved, fail, cancel-while-evaluating, "
+                "cancel-and-solved} for the configured runs x generations, with and without an observer; each is run "
+                "through the real Experiment.Execute (sequential and parallel epoch executor, population of 8) with a "
+                "scripted evaluator and a recording observer and compared with the specification's evaluator log, "
+                "observer log, recorded trials, final population states and returned error; non-trivial = script that "
+                "contains an outcome other than ok")
+    ctx.assumptions = ["population identity is observed through *Population / *Organism pointers",
+                       "nothing is asserted about a finish notification for a trial aborted by an error"]
+    cases_file = ctx.path("exp_cases.ndjson")
+    if replay is not None:
+        write_lines(cases_file, replay_cases(replay))
+    else:
+        cfgs = ["MC_Experiment.cfg", "MC_Experiment_small.cfg", "MC_Experiment_wide.cfg", "MC_Experiment_nogens.cfg"]
+        if thorough:
+            cfgs.append("MC_Experiment_thorough.cfg")
+        files = []
+        for cfg in cfgs:
+            mc = ctx.tlc("MC_Experiment", cfg, timeout=2400)
+            spec_must_hold(mc, cfg)
+            files.append(mc.cases_file)
+        n = cat_files(cases_file, files)
+        ctx.exhaustive = True
+        ctx.extra["scope"] = {"behaviours": n, "configs": cfgs}
+    rep_file = ctx.path("exp_report.json")
+    _, rep, _ = ctx.vh(["replay-experiment", "-cases", cases_file, "-out", rep_file], expect_report=rep_file, timeout=3000)
+    ctx.add_report(rep, "experiment", traces=rep.get("cases", 0))
